@@ -16,7 +16,7 @@ def classify(line):
 CFG = dict(
     imports=["From Verif.Common Require Import Prefix.", "From Verif.C39 Require Import Model Spec Conditions Cases.", "Open Scope N_scope."],
     checker="check_xcase",
-    n=dict(quick=200, thorough=8000),
+    n=dict(quick=160, thorough=8000),
     shard=25,
     deps=["C36"],
     classify=classify,
@@ -28,7 +28,9 @@ CFG = dict(
          "preferably - and/or the finalizer Update for chosen pools is rejected with a 409 by a reactor on the fake clientset, followed by "
          "clean passes; also 35% of the config cases have failing writes in their first pass; scripted: status write of a freshly "
          "terminating pool fails, finalizer/status writes of new pools fail, incumbent disabled with failed status write and re-enabled), "
-         "malformed (unparseable pool and block CIDRs); the oracle is applied after EVERY pass including the failed ones; pool CIDRs /22../28 crowded into 10.0.0.0/22 (15% with host bits set), a few "
+         "malformed (unparseable pool and block CIDRs), conditions (every 8th case: the real setConditionOnPool / hasCondition on lists of 0-5 "
+         "conditions of 3 types incl. nil status, duplicates of a type, already-as-wanted and one-field-differs), handle-err (every 16th case: "
+         "the real handleErr with a fake queue, failed/clean x requeue count 0-7); the oracle is applied after EVERY pass including the failed ones; pool CIDRs /22../28 crowded into 10.0.0.0/22 (15% with host bits set), a few "
          "elsewhere, 0.0.0.0/0, IPv6 /46../112; names chosen to exercise byte-wise name order; creation times with ties.  "
          "non-trivial = at some reconcile two pools with overlapping CIDRs are present; distinct by (initial configuration, operations)",
     trusted=["Coq 8.16.1 kernel + vm_compute",
